@@ -438,6 +438,15 @@ class FormulaMaterializer(metaclass=FormulaMaterializerMeta):
             if not evaled_factors:
                 yield term, []
                 continue
+            if any(
+                evaled_factor.metadata.kind is Factor.Kind.CONSTANT
+                and evaled_factor.values == 0
+                for evaled_factor in evaled_factors
+            ):
+                # Terms scaled by a literal zero (e.g. from differentiation)
+                # contribute no columns, and must not shadow other terms.
+                yield term, []
+                continue
 
             if ensure_full_rank:
                 term_span = (
